@@ -726,6 +726,7 @@ class SmtLibParser(object):
         # pylint: disable=unused-argument
         self.consume_opening(tokens, "expression")
         newvals = {}
+        delayed = []
         current = "("
         self.consume_opening(tokens, "expression")
         while current != ")":
@@ -735,9 +736,20 @@ class SmtLibParser(object):
             vname = self.parse_atom(tokens, "expression")
             expr = cast(Union[str, FNode], assert_not_none(self.get_expression(tokens)))
             newvals[vname] = expr
-            self.cache.bind(vname, expr)
+            # The bindings of a let are simultaneous: a name that already
+            # has a meaning keeps it in the other terms bound by the same
+            # let, and gets the new one only in the body.
+            # A name without a previous meaning is bound right away,
+            # so that it can be used by the bindings that follow (not SMT-LIB)
+            if self.cache.get(vname) is None:
+                self.cache.bind(vname, expr)
+            else:
+                delayed.append(vname)
             self.consume_closing(tokens, "expression")
             current = tokens.consume()
+
+        for vname in delayed:
+            self.cache.bind(vname, newvals[vname])
 
         stack[-1].append(self._exit_let)
         stack[-1].append(newvals.keys())
